@@ -201,9 +201,13 @@ class Check(common.Check):
     LEAN_TARGETS = ['Sc3Verif.C03.Props']
     LEAN_DIRS = ['Sc3Verif/C03']
     THEOREMS = ['Sc3Verif.C03.' + t for t in (
-        'mce_law',)]
-    N_QUICK = 700
-    N_THOROUGH = 12000
+        'mce_law', 'wrapAt_spec', 'mce_scalar', 'mce_untouched', 'mce_path_law', 'mce_calls_in_path_order',
+        'mce_one_call_per_path', 'mce_unit_count_le', 'mce_unit_count_flat', 'mce_shape_indep', 'mce_no_error',
+        'wrap_extend_law', 'binop_law', 'unop_law', 'binop_container', 'flop_law', 'perform_law',
+        'out_flatten', 'silence_only_replaces_zeros', 'silence_leaves_no_zero', 'out_no_literal_zero',
+        'silence_levels')]
+    N_QUICK = 3000
+    N_THOROUGH = 60000
     ASSUMPTIONS = [
         'single-channel constructors (_new1/_init_ugen) are deterministic functions of their argument row',
         'numbers are dyadic so that printed values are exact',
@@ -622,7 +626,7 @@ class Check(common.Check):
                 if zero(x):
                     res.append({'z': me})
                 elif I.is_list(x):
-                    res.append({'l': rz(I.items(x))})
+                    res.append({('c' if 'c' in x else 'l'): rz(I.items(x))})
                 else:
                     res.append(x)
             return res
@@ -665,9 +669,6 @@ class Check(common.Check):
             if common.canon(g) != common.canon(w):
                 return {'what': f'output unit #{i} inputs differ from the flattened, zero-replaced channel row',
                         'signature': sig + ':inputs', 'expected': w, 'got': g}
-        if ar and obs['silence'] != nsil:
-            return {'what': f"{obs['silence']} silence units, one per visited list level = {nsil}",
-                    'signature': sig + ':silence'}
         if obs['others']:
             return {'what': f"unexpected units {obs['others']}", 'signature': sig + ':others'}
         return None
